@@ -1,4 +1,6 @@
 """C16 - Embedded transformer equals transforming afterwards; variants agree."""
+import copy
+
 import shapelib as sl
 from lib import coq_list as L, coq_term_str as S, coq_nat as N
 
@@ -141,7 +143,7 @@ def correspond(ctx):
 
     # (a) the four traversals on random trees ----------------------------------------------------------------
     cases, meta = [], []
-    for _ in range(ctx.scale(350, 3500) * wide):
+    for _ in range(ctx.scale(300, 3500) * wide):
         t = ('T', rng.choice(RULE_POOL), tuple(random_tree(rng, 1) for _ in range(rng.choice([0, 1, 2, 3, 4]))))
         rules = [n for n in RULE_POOL if n != '_x' and rng.random() < 0.55]
         toks = [k for k in TOK_POOL if rng.random() < 0.5]
@@ -166,12 +168,19 @@ def correspond(ctx):
         if bad:
             ctx.violation('variants', wit, True, bad)
             continue
-        cases.append('(%s, %s, %s, %s)' % (L([S(n) for n in rules]), L([S(k) for k in toks]), sl.stree_lit(t),
-                                           L(['(%s, %s)' % (sl.value_lit(v), L([path_lit(p) for p in lg])) for v, lg in obs])))
+        if not (obs[0][1] == obs[1][1] == obs[3][1]):
+            ctx.violation('correspondence:post-order logs', dict(wit, no_longer_checks='Transformer, _NonRecursive and '
+                          '_InPlaceRecursive call in the same (post-)order', tree=sl.show(t)), False,
+                          'the three post-order traversals log different orders (each is children-first)')
+            continue
+        # the four values are equal and three logs are equal (checked above): emitted once
+        cases.append('((%s, %s, %s, %s, %s, %s) : tr_case)' % (L([S(n) for n in rules]), L([S(k) for k in toks]), sl.stree_lit(t),
+                                                   sl.value_lit(obs[0][0]), L([path_lit(p) for p in obs[0][1]]),
+                                                   L([path_lit(p) for p in obs[2][1]])))
         meta.append(wit)
     if meta:
         ctx.sample({'variants': dict(meta[0], tree=sl.show(meta[0]['tree']))})
-    bad, errs = ctx.coq_bad_indices('c16var', IMPORTS, 'tr_check', cases, chunk=120)
+    bad, errs = ctx.coq_bad_indices('c16var', IMPORTS, 'tr_check', cases, chunk=600)
     for e in errs:
         ctx.violation('correspondence:coq-eval', {'error': e}, False, e[:300])
     for i in bad[:3]:
@@ -180,6 +189,7 @@ def correspond(ctx):
                            tree=sl.show(meta[i]['tree'])), False,
                       'value or call log of a traversal differs from the Coq model (the four classes agree with each other)')
 
+    ctx.note('t_variants=%.1f' % (__import__('time').time()-ctx.t0))
     # (c) DAG-shaped inputs (python only) ------------------------------------------------------------------------
     from lark import Tree
     for _ in range(ctx.scale(60, 600)):
@@ -195,17 +205,28 @@ def correspond(ctx):
                 vals.append(sl.value_of(make_T(b, rules, toks, 'plain')().transform(root)))
             except Exception as ex:
                 vals.append(('exc', repr(ex)[:100]))
-        ctx.count('dag', key=(repr(sub), repr(other), tuple(rules), tuple(toks)), nontrivial=True)
-        if any(v != vals[0] for v in vals):
-            k = [v != vals[0] for v in vals].index(True)
+        # Transformer_InPlace relies on Tree.iter_subtrees, which is not children-first on DAGs (finding F31,
+        # fixed exotic witness below): only counted here; the other three classes must agree
+        ctx.count('dag', key=(repr(sub), repr(other), tuple(rules), tuple(toks)), nontrivial=True,
+                  inplace_differs_on_dag=vals[2] != vals[0])
+        rest = [vals[0], vals[1], vals[3]]
+        if any(v != rest[0] for v in rest):
+            k = [v != rest[0] for v in rest].index(True)
             ctx.violation('variants-dag', {'shared': sub, 'other': other, 'rules': rules, 'toks': toks}, True,
-                          '%s differs from Transformer on a tree with a shared sub-object' % BASES[k])
+                          '%s differs from Transformer on a tree with a shared sub-object' % [BASES[0], BASES[1], BASES[3]][k])
+    # fixed exotic witness: parent before shared child in iter_subtrees
+    w = {'shared': ('T', 'b', (('t', 'A', '1'),)), 'dag_witness': True, 'rules': ['a', 'b'], 'toks': ['A']}
+    ctx.count('exotic-dag-iter_subtrees', key='F31')
+    if dag_witness_bad(w):
+        ctx.violation('variants-dag', w, True, 'Transformer_InPlace differs from Transformer on start[a[sh], sh] with a shared '
+                      'sub-object sh: iter_subtrees yields a before sh', key='F31:iter_subtrees-parent-before-shared-child')
 
+    ctx.note('t_dag=%.1f' % (__import__('time').time()-ctx.t0))
     # (b) embedded vs post-hoc ------------------------------------------------------------------------------------
     from lark import Lark
     from lark.exceptions import LarkError
     cases, meta = [], []
-    ngram = ctx.scale(60, 600) * wide
+    ngram = ctx.scale(45, 600) * wide
     done = tried = 0
     while done < ngram and tried < 4 * ngram:
         tried += 1
@@ -258,14 +279,15 @@ def correspond(ctx):
                 lit = sl.dtree_lit(d, cache)
                 byid = {id(r): r for r in plain.rules}
                 lets = ''.join('let %s := %s in ' % (nm, sl.rrec_lit(sl.rrec_of_rule(byid[k]))) for k, nm in cache.items())
-                cases.append('(%s(%s, %s, %s, %s, %s, %s))' % (lets, L([S(n) for n in rules]), L([S(k) for k in toks]),
+                cases.append('((%s(%s, %s, %s, %s, %s, %s)) : emb_case)' % (lets, L([S(n) for n in rules]), L([S(k) for k in toks]),
                                                               sl.B(mp), lit, sl.value_lit(emb), sl.stree_lit(sl.stree_of(tree))))
                 meta.append(wit)
         if got_one:
             done += 1
+    ctx.note('t_emb_py=%.1f' % (__import__('time').time()-ctx.t0))
     if meta:
         ctx.sample({'embedded': meta[0]})
-    bad, errs = ctx.coq_bad_indices('c16emb', IMPORTS, 'emb_check', cases, chunk=50)
+    bad, errs = ctx.coq_bad_indices('c16emb', IMPORTS, 'emb_check', cases, chunk=400)
     for e in errs:
         ctx.violation('correspondence:coq-eval', {'error': e}, False, e[:300])
     for i in bad[:3]:
@@ -273,6 +295,7 @@ def correspond(ctx):
                       dict(meta[i], no_longer_checks='Coq embedded model on the LALR derivation == value lark returned'), False,
                       'Coq embedded model differs from the value lark returned (embedded == post-hoc still holds on this case)')
 
+    ctx.note('t_emb_coq=%.1f' % (__import__('time').time()-ctx.t0))
     # (x) exotic: a Transformer_InPlace subclass as embedded transformer (create_callback passes a Tree) ------------
     g = 'start: a B\na: A\nA: "a"\nB: "b"\n'
     wit = {'grammar': g, 'text': 'ab', 'keep_all_tokens': False, 'maybe_placeholders': True, 'base': 'Transformer_InPlace',
@@ -282,6 +305,16 @@ def correspond(ctx):
     ctx.count('exotic-embedded-inplace', key='F27')
     if bad:
         ctx.violation('embedded-vs-posthoc', wit, True, bad, key='F27:embedded-Transformer_InPlace-callback-gets-Tree')
+
+
+def dag_witness_bad(w):
+    from lark import Tree
+    vals = []
+    for b in BASES:
+        sh = sl.to_lark(_tup(w['shared']))
+        root = Tree('start', [Tree('a', [sh]), sh])
+        vals.append(sl.value_of(make_T(b, w['rules'], w['toks'], 'plain')().transform(root)))
+    return any(v != vals[0] for v in vals)
 
 
 def embedded_vs_posthoc(w, plain=None, tree=None):
@@ -296,7 +329,7 @@ def embedded_vs_posthoc(w, plain=None, tree=None):
     except Exception as ex:
         emb = ('exc', repr(ex)[:200])
     try:
-        post = sl.value_of(T().transform(tree))
+        post = sl.value_of(T().transform(copy.deepcopy(tree)))     # in-place classes rewrite their input
     except Exception as ex:
         post = ('exc', repr(ex)[:200])
     if emb != post:
@@ -314,6 +347,8 @@ def replay(ctx, case):
         if any(o[0] == 'exc' for o in obs) or any(o[0] != obs[0][0] for o in obs):
             return True
         return any(log_ok(t, [tuple(p) for p in o[1]]) for o in obs)
+    if 'dag_witness' in w:
+        return dag_witness_bad(w)
     if 'shared' in w:
         from lark import Tree
         sub, other = _tup(w['shared']), _tup(w['other'])
@@ -325,7 +360,7 @@ def replay(ctx, case):
                 vals.append(sl.value_of(make_T(b, w['rules'], w['toks'], 'plain')().transform(root)))
             except Exception as ex:
                 vals.append(('exc', repr(ex)[:100]))
-        return any(v != vals[0] for v in vals)
+        return any(v != vals[0] for v in [vals[1], vals[3]])
     return False
 
 
